@@ -105,6 +105,25 @@ type ShapeTagOrder struct {
 	D int64   `cbor:"73,omitempty,keyasint" json:"td,omitempty"`
 }
 
+// a NAMED field whose name equals its (struct) type: not an embedded field
+type Version struct {
+	Major int64 `cbor:"1,keyasint" json:"major"`
+	Minor int64 `cbor:"2,keyasint" json:"minor"`
+}
+
+type ShapeNamedAsType struct {
+	Version Version `cbor:"5,keyasint" json:"version"`
+	N       *int64  `cbor:"6,keyasint,omitempty" json:"n,omitempty"`
+}
+
+// fields whose cbor and json tags DISAGREE about "-" and omitempty
+type ShapeTagsDisagree struct {
+	Debug  string  `cbor:"-" json:"debug"`
+	Count  *int64  `cbor:"80,keyasint,omitempty" json:"count"`
+	Secret string  `cbor:"81,keyasint" json:"-"`
+	Opt    *string `cbor:"82,keyasint" json:"opt,omitempty"`
+}
+
 type ShapeEmpty struct{}
 
 type ShapeAllOptional struct {
@@ -188,6 +207,44 @@ func (s *ShapeOuterLower) fields() []fd {
 func (s *ShapeTagOrder) fields() []fd {
 	return []fd{fPtrInt(70, "ta", true, s.A), fStr(71, "tb", false, s.B), fPtrStr(72, "tc", true, s.C), fInt(73, "td", true, s.D)}
 }
+func (s *ShapeNamedAsType) fields() []fd {
+	ver := fd{5, "version", false, true, icbor.Map(icbor.P(icbor.U(1), icbor.I(s.Version.Major)), icbor.P(icbor.U(2), icbor.I(s.Version.Minor))),
+		map[string]any{"major": float64(s.Version.Major), "minor": float64(s.Version.Minor)}}
+	return []fd{ver, fPtrInt(6, "n", true, s.N)}
+}
+
+// the CBOR view; fieldsJSON gives the JSON view
+func (s *ShapeTagsDisagree) fields() []fd {
+	return []fd{fPtrInt(80, "count", true, s.Count), fStr(81, "secret", false, s.Secret), fPtrStr(82, "opt", false, s.Opt)}
+}
+func (s *ShapeTagsDisagree) fieldsJSON() []fd {
+	return []fd{fStr(0, "debug", false, s.Debug), fPtrInt(80, "count", false, s.Count), fPtrStr(82, "opt", true, s.Opt)}
+}
+func (s *ShapeTagsDisagree) stripFor(format string) any {
+	c := *s
+	if format == "cbor" {
+		c.Debug = ""
+	} else {
+		c.Secret = ""
+	}
+	return &c
+}
+
+// fieldsFor / expectedAfter: per-format views of a shape (the same for both
+// formats unless the shape says otherwise).
+func fieldsFor(s shape, format string) []fd {
+	if x, ok := s.(interface{ fieldsJSON() []fd }); ok && format == "json" {
+		return x.fieldsJSON()
+	}
+	return s.fields()
+}
+func expectedAfter(s shape, format string) any {
+	if x, ok := s.(interface{ stripFor(string) any }); ok {
+		return x.stripFor(format)
+	}
+	return stripHidden(s)
+}
+
 func (s *ShapeFold) fields() []fd {
 	return []fd{fPtrStr(60, "hwver", true, s.HwVer), fPtrStr(61, "HWVER", true, s.HwVerV2), fInt(62, "serial", false, s.Serial), fPtrInt(63, "k", true, s.K), fPtrInt(64, "\u212a", true, s.Kelvin)}
 }
@@ -383,7 +440,7 @@ func c15CheckCBOR(s shape, fresh func() any, plainComparable bool) string {
 		return fmt.Sprintf("output is not a single definite-length map: %s", truncate(icbor.Diag(n), 200))
 	}
 	var want []fd
-	for _, f := range s.fields() {
+	for _, f := range fieldsFor(s, "cbor") {
 		if f.emit {
 			want = append(want, f)
 		}
@@ -405,7 +462,7 @@ func c15CheckCBOR(s shape, fresh func() any, plainComparable bool) string {
 	if err := encoding.PopulateStructFromCBOR(hdm, out, dst); err != nil {
 		return fmt.Sprintf("populating a fresh struct from the serialiser's own output fails: %v (bytes %s)", err, truncate(hexs(out), 200))
 	}
-	if exp := stripHidden(s); !reflect.DeepEqual(dst, exp) {
+	if exp := expectedAfter(s, "cbor"); !reflect.DeepEqual(dst, exp) {
 		return fmt.Sprintf("populate(serialise(x)) != x:\n  got  %s\n  want %s", dumpJSON(dst), dumpJSON(exp))
 	}
 	// plain-codec differential
@@ -458,7 +515,7 @@ func c15CheckCBOR(s shape, fresh func() any, plainComparable bool) string {
 	for name, f := range map[string]*icbor.Node{"indefinite": icbor.Map(n.Pairs...).WithIndef(), "tagged": icbor.Tag(55799, icbor.Map(n.Pairs...))} {
 		d2 := fresh()
 		if err := encoding.PopulateStructFromCBOR(hdm, icbor.Encode(f), d2); err == nil {
-			if exp := stripHidden(s); !reflect.DeepEqual(d2, exp) {
+			if exp := expectedAfter(s, "cbor"); !reflect.DeepEqual(d2, exp) {
 				return fmt.Sprintf("populate from the %s form of the serialiser's output gives a different value", name)
 			}
 		}
@@ -495,7 +552,7 @@ func c15CheckJSON(s shape, fresh func() any, plainComparable bool) string {
 	want := map[string]any{}
 	var order []string
 	var wantF []fd
-	for _, f := range s.fields() {
+	for _, f := range fieldsFor(s, "json") {
 		if f.emit {
 			want[f.name] = f.jv
 			order = append(order, f.name)
@@ -513,7 +570,7 @@ func c15CheckJSON(s shape, fresh func() any, plainComparable bool) string {
 	if err := encoding.PopulateStructFromJSON(out, dst); err != nil {
 		return fmt.Sprintf("populating a fresh struct from the serialiser's own JSON fails: %v (%s)", err, truncate(string(out), 200))
 	}
-	if exp := stripHidden(s); !reflect.DeepEqual(dst, exp) {
+	if exp := expectedAfter(s, "json"); !reflect.DeepEqual(dst, exp) {
 		return fmt.Sprintf("JSON populate(serialise(x)) != x:\n  got  %s\n  want %s", dumpJSON(dst), dumpJSON(exp))
 	}
 	if plainComparable {
@@ -557,12 +614,18 @@ func c15CheckJSON(s shape, fresh func() any, plainComparable bool) string {
 }
 
 func TestC15_Shapes(t *testing.T) {
-	st := NewStats("C15", "TestC15_Shapes", "rapid: twelve hand-declared struct shapes following the claims convention (flat; one- and two-level embedded struct; embedded interface holding a struct pointer, a struct by value, or nil; empty struct; all-optional struct; a struct whose JSON member names differ only by (Unicode) case; an embedded struct of an unexported type; tag options with omitempty before keyasint) x random field values x random subsets of optional fields set. CBOR: output parsed by the independent reader must be ONE definite map whose entries equal, in declaration order, the hand-written union of outer+embedded fields honouring omitempty and '-'; populate(serialise(x)) == x; for shapes without embedding the decoded map equals the plain marshaller's; bytes stable; deleting any non-optional key or duplicating a key makes populate fail. JSON likewise (no duplicate clause; a differently-cased spelling of a missing non-optional member does not stand in for it). Non-trivial = has an embedded level, or is the empty/all-absent struct; distinct = shape + presence mask")
-	st.Require = []string{"flat", "embedded-1", "embedded-2", "embedded-iface", "embedded-iface-nil", "embedded-iface-value", "case-fold-names", "embedded-unexported-type", "tag-option-order", "empty", "all-optional", "zero-entries"}
+	st := NewStats("C15", "TestC15_Shapes", "rapid: fourteen hand-declared struct shapes following the claims convention (flat; one- and two-level embedded struct; embedded interface holding a struct pointer, a struct by value, or nil; empty struct; all-optional struct; a struct whose JSON member names differ only by (Unicode) case; an embedded struct of an unexported type; tag options with omitempty before keyasint; a named field called like its struct type; cbor and json tags that disagree about '-' and omitempty) x random field values x random subsets of optional fields set. CBOR: output parsed by the independent reader must be ONE definite map whose entries equal, in declaration order, the hand-written union of outer+embedded fields honouring omitempty and '-'; populate(serialise(x)) == x; for shapes without embedding the decoded map equals the plain marshaller's; bytes stable; deleting any non-optional key or duplicating a key makes populate fail. JSON likewise (no duplicate clause; a differently-cased spelling of a missing non-optional member does not stand in for it). Non-trivial = has an embedded level, or is the empty/all-absent struct; distinct = shape + presence mask")
+	st.Require = []string{"flat", "embedded-1", "embedded-2", "embedded-iface", "embedded-iface-nil", "embedded-iface-value", "case-fold-names", "embedded-unexported-type", "tag-option-order", "field-named-as-type", "tags-disagree", "empty", "all-optional", "zero-entries"}
 	defer st.Flush(t)
 	rapid.Check(t, func(t *rapid.T) {
 		s, fresh, name := drawShape(t)
-		plain := name == "flat" || name == "empty" || name == "all-optional" || name == "tag-option-order"
+		switch rapid.IntRange(0, 7).Draw(t, "special") {
+		case 0:
+			s, fresh, name = &ShapeNamedAsType{Version: Version{Major: drawInt(t, "major"), Minor: drawInt(t, "minor")}, N: drawOptInt(t, "n")}, func() any { return &ShapeNamedAsType{} }, "field-named-as-type"
+		case 1:
+			s, fresh, name = &ShapeTagsDisagree{Debug: drawStr(t, "debug"), Count: drawOptInt(t, "count"), Secret: drawStr(t, "secret"), Opt: drawOptStr(t, "opt")}, func() any { return &ShapeTagsDisagree{} }, "tags-disagree"
+		}
+		plain := name == "flat" || name == "empty" || name == "all-optional" || name == "tag-option-order" || name == "field-named-as-type" || name == "tags-disagree"
 		if msg := c15CheckCBOR(s, fresh, plain); msg != "" {
 			t.Fatalf("C15 violated (CBOR, shape %s): %s", name, msg)
 		}
